@@ -264,7 +264,9 @@ package oidc
 // unmarshalJSONMulti hands the same document to every destination, in order, and reports the first failure.
 //@ loop oidc.unmarshalJSONMulti#1
 //@   invariant all-so-far-decoded: true
+//@   continues-only-if no-failure-passed-over: lastres("encoding/json.Unmarshal", 0) == nil
 //@ func oidc.unmarshalJSONMulti
+//@   ensures first-failure-reported: calledAny("encoding/json.Unmarshal") && lastres("encoding/json.Unmarshal", 0) != nil ==> err != nil
 //@   ensures same-document: calledAny("encoding/json.Unmarshal") ==> lastarg("encoding/json.Unmarshal", 0) == data
 
 // ---- tolerant decoders (by case of the generic decoding jsonAny(document)) ----
